@@ -109,6 +109,13 @@ var intrinsics = map[string]Intrinsic{}
 
 var dbgIns = os.Getenv("GOITSYM_INS")
 
+// dataPtr is the result of unsafe.SliceData / unsafe.StringData.
+type dataPtr struct {
+	sl    Slice
+	str   Str
+	isStr bool
+}
+
 // assignInPlace stores src into *dst. Structs and arrays are overwritten element by element, so that addresses of
 // fields taken before the store (go/ssa computes &p.f first and then stores the zero value through p) stay valid.
 func assignInPlace(dst *Value, src Value) {
@@ -1099,6 +1106,12 @@ func (x *Exec) convert(from, to types.Type, v Value) Value {
 	if _, ok := under(from).(*types.Pointer); ok {
 		return v
 	}
+	if b, ok := under(from).(*types.Basic); ok && b.Kind() == types.UnsafePointer {
+		// unsafe.Pointer -> *T: the model pointer passes through (used by the standard library for self-references)
+		if _, ok := under(to).(*types.Pointer); ok {
+			return v
+		}
+	}
 	if b, ok := under(to).(*types.Basic); ok && b.Info()&types.IsFloat != 0 {
 		return st.Const(64, 0)
 	}
@@ -1175,6 +1188,43 @@ func (x *Exec) builtin(b *ssa.Builtin, args []Value, cc *ssa.CallCommon) Value {
 		return nil
 	case "print", "println":
 		return nil
+	case "SliceData":
+		// unsafe.SliceData: a handle on the slice's elements (only consumed by unsafe.String / unsafe.Slice)
+		if sl, ok := args[0].(Slice); ok {
+			return dataPtr{sl: sl}
+		}
+	case "StringData":
+		if s, ok := args[0].(Str); ok {
+			return dataPtr{str: s, isStr: true}
+		}
+	case "String":
+		// unsafe.String(ptr, len)
+		if dp, ok := args[0].(dataPtr); ok {
+			n := int(x.concInt(args[1].(*Term), 0, 1<<20, "unsafe.String length"))
+			out := make([]*Term, n)
+			for i := 0; i < n; i++ {
+				if dp.isStr {
+					out[i] = dp.str.b[i]
+				} else {
+					out[i] = dp.sl.a[i].(*Term)
+				}
+			}
+			return Str{out}
+		}
+	case "Slice":
+		// unsafe.Slice(ptr, len) over string data: a fresh byte slice with the same bytes (never written through by the callers)
+		if dp, ok := args[0].(dataPtr); ok {
+			n := int(x.concInt(args[1].(*Term), 0, 1<<20, "unsafe.Slice length"))
+			out := make([]Value, n)
+			for i := 0; i < n; i++ {
+				if dp.isStr {
+					out[i] = dp.str.b[i]
+				} else {
+					out[i] = dp.sl.a[i]
+				}
+			}
+			return Slice{a: out}
+		}
 	case "min", "max":
 		// integer operands (Go 1.21 builtins); signedness from the static type of the call
 		if t0, ok := args[0].(*Term); ok && cc != nil {
